@@ -157,6 +157,14 @@ def gen_pats(rng, exact, zero_ok, markers, nomatch=False):
         if exact and rng.random() < 0.6:
             k = rng.choice([3, 4, 5, 6])
             pats.append({'t': 'ex', 'p': ''.join(rng.choice(ALPHA) for _ in range(k))})
+    if rng.random() < 0.04:
+        # a long pattern (a whole banner, a generated alternation): its text is quoted in the EOF / TIMEOUT diagnostics
+        ln = rng.choice([73, 80, 200, 1000])
+        if exact:
+            pats.insert(rng.randint(0, len(pats)), {'t': 'ex', 'p': 'x' + ''.join(rng.choice('abc') for _ in range(ln))})
+        else:
+            pats.insert(rng.randint(0, len(pats)), {'t': 're', 'p': 'x(?:%s)' % '|'.join(
+                ''.join(rng.choice('abc') for _ in range(7)) for _ in range(ln // 8 + 1))})
     for m in markers:
         pats.insert(rng.randint(0, len(pats)), {'t': m})
     return pats
@@ -327,6 +335,9 @@ def generate(rng, profile='engine'):
             op['to'] = -1
         elif tor < 0.55:
             op['to'] = 0
+        elif tor < 0.57:
+            # "time left" computed by the caller from a deadline of its own, just after that deadline: negative, and not -1
+            op['to'] = rng.choice([-0.001, -0.5, -2, -1e-9])
         elif tor < 0.8:
             op['to'] = rng.choice([0.0002, 0.001, 0.004, 0.03])
         elif ends:
@@ -710,7 +721,10 @@ def evaluate(r, clauses=None):
                 (kind == 'exc' and isinstance(val, TIMEOUT))
         is_eof = (kind == 'ret' and val == ei and ei >= 0 and call['after'] is EOF) or \
                  (kind == 'exc' and isinstance(val, EOF))
-        if is_to and call.get('ended_at_entry') is True and not call.get('async'):
+        # a negative timeout other than -1 ("time left" computed just after the caller's own deadline) is outside what the
+        # statements define: such a call is held to conservation and to "a pending occurrence wins", nothing else
+        neg_to = isinstance(call['timeout'], (int, float)) and call['timeout'] < 0 and call['timeout'] != -1
+        if is_to and call.get('ended_at_entry') is True and not call.get('async') and not neg_to:
             # "when the stream ends ... EOF": the end of the stream was there to be seen before the call began
             if V('C04.eof_missed', 'TIMEOUT reported although the peer had ended the stream and nothing was left unread when '
                  'the call started', call):
@@ -748,7 +762,7 @@ def evaluate(r, clauses=None):
             if seen_eof and call['t1'] - call['t0'] > EPS_US:
                 if V('C04.after_eof_blocks', 'call after EOF took %.3f virtual s' % ((call['t1'] - call['t0']) / 1e6), call):
                     return out
-            if seen_eof and is_to:
+            if seen_eof and is_to and not neg_to:
                 if V('C04.after_eof_timeout', 'TIMEOUT reported after EOF had been reported', call):
                     return out
             if res['kind'] == 'match':
